@@ -318,6 +318,10 @@ func ackThenFile(ctx *core.Ctx, bin string, round int) {
 		b, err := os.ReadFile(s.AOFPath())
 		return err == nil && strings.Contains(string(b), tok)
 	}
+	countInFile := func(tok string) int {
+		b, _ := os.ReadFile(s.AOFPath())
+		return strings.Count(string(b), tok)
+	}
 	readAll := func(c net.Conn) string {
 		c.SetReadDeadline(time.Now().Add(10 * time.Second))
 		b, _ := io.ReadAll(c)
@@ -327,6 +331,8 @@ func ackThenFile(ctx *core.Ctx, bin string, round int) {
 		name string
 		run  func(tok string) (acked bool, err error)
 	}
+	// occurrences of the token the file must hold when the preparing command carries it too
+	needs := map[string]int{"jdel-geojson": 2, "jset-geojson": 2, "eval-jset-geojson": 2}
 	dial := func() (net.Conn, error) { return net.DialTimeout("tcp", s.Addr(), 5*time.Second) }
 	respDo := func(pre [][]string, cmd ...string) func(string) (bool, error) {
 		return func(tok string) (bool, error) {
@@ -512,6 +518,11 @@ func ackThenFile(ctx *core.Ctx, bin string, round int) {
 		}
 		return string(buf) == "+OK\r\n", nil
 	}})
+	// JSET / JDEL on a GeoJSON object re-enter SET: the edit itself must be what reaches the log
+	feat := `{"type":"Feature","geometry":{"type":"Point","coordinates":[1,2]},"properties":{"@T":1,"keep":2}}`
+	shapes = append(shapes, shape{"jdel-geojson", respDo([][]string{{"SET", "p", "jgeo", "OBJECT", feat}}, "JDEL", "p", "jgeo", "properties.@T")})
+	shapes = append(shapes, shape{"jset-geojson", respDo([][]string{{"SET", "p", "jgeo2", "OBJECT", feat}}, "JSET", "p", "jgeo2", "properties.@T", "5")})
+	shapes = append(shapes, shape{"eval-jset-geojson", respDo([][]string{{"SET", "p", "jgeo3", "OBJECT", feat}}, "EVAL", `return tile38.call('jset','p','jgeo3','properties.' .. ARGV[1], '7')`, "0", "@T")})
 	// a multi-field FSET whose last pair changes nothing
 	shapes = append(shapes, shape{"fset-last-pair-unchanged", respDo([][]string{{"SET", "p", "f2", "FIELD", "load", "5", "POINT", "1", "2"}}, "FSET", "p", "f2", "tokf", "@T", "load", "5")})
 	shapes = append(shapes, shape{"fset-first-pair-unchanged", respDo([][]string{{"SET", "p", "f3", "FIELD", "load", "5", "POINT", "1", "2"}}, "FSET", "p", "f3", "load", "5", "tokf", "@T")})
@@ -556,7 +567,7 @@ func ackThenFile(ctx *core.Ctx, bin string, round int) {
 			continue
 		}
 		ctx.Count("ack_file_probes", 1)
-		if !inFile(tok) {
+		if !inFile(tok) || countInFile(tok) < needs[sh.name] {
 			ctx.Violation("acked-not-in-file:"+sh.name, fmt.Sprintf("request shape %s: the success reply was received but the command (token %s) is not in appendonly.aof", sh.name, tok), map[string]any{"shape": sh.name})
 			continue
 		}
